@@ -352,6 +352,86 @@ func genCtrlX(tier string, emit func(string)) {
 	}
 }
 
+// A4: the slot across the life of its tunnel — close events interleaved with the steps of
+// handleConnection, in particular a close between RegisterTunnel and Start, followed by limit+1 openings.
+func mkSlot(limit int, toks []string) string {
+	return fmt.Sprintf("slot lim %d sch %d %s", limit, len(toks), strings.Join(toks, " "))
+}
+
+func genSlot(r *common.Rand, tier string, emit func(string)) {
+	// every schedule over {s0, s1, c0, c1} of the given length at limit 1 (and 2 connections at limit 2)
+	length := 6
+	if tier == "thorough" {
+		length = 7
+	}
+	alpha := []string{"s0", "s1", "c0", "c1"}
+	allSchedules(len(alpha), length, func(s []int) {
+		toks := make([]string, len(s))
+		for i, x := range s {
+			toks[i] = alpha[x]
+		}
+		emit(mkSlot(1, toks))
+	})
+	// histories: k connections whose tunnel is closed at position p of their life (0 = before the slot is
+	// taken, 1 = before RegisterTunnel, 2 = in the window before Start, 3 = after Start), then limit+1
+	// new connections are opened completely, round-robin or one after the other
+	for _, limit := range []int{1, 2, 3} {
+		for k := 1; k <= 2; k++ {
+			for p := 0; p <= 3; p++ {
+				for _, rr := range []bool{false, true} {
+					var toks []string
+					for j := 0; j < k; j++ {
+						for st := 0; st < 3; st++ {
+							if st == p {
+								toks = append(toks, fmt.Sprintf("c%d", j))
+							}
+							toks = append(toks, fmt.Sprintf("s%d", j))
+						}
+						if p == 3 {
+							toks = append(toks, fmt.Sprintf("c%d", j))
+						}
+					}
+					m := limit + 1
+					if rr {
+						for st := 0; st < 3; st++ {
+							for j := 0; j < m; j++ {
+								toks = append(toks, fmt.Sprintf("s%d", k+j))
+							}
+						}
+					} else {
+						for j := 0; j < m; j++ {
+							for st := 0; st < 3; st++ {
+								toks = append(toks, fmt.Sprintf("s%d", k+j))
+							}
+						}
+					}
+					emit(mkSlot(limit, toks))
+				}
+			}
+		}
+	}
+	// random: steps and closes of up to limit+3 connections
+	count := 1500
+	if tier == "thorough" {
+		count = 15000
+	}
+	for i := 0; i < count; i++ {
+		limit := r.Intn(4)
+		n := 2 + r.Intn(limit+2)
+		ln := 6 + r.Intn(6*n)
+		toks := make([]string, ln)
+		for j := range toks {
+			c := r.Intn(n)
+			if r.Intn(10) < 3 {
+				toks[j] = fmt.Sprintf("c%d", c)
+			} else {
+				toks[j] = fmt.Sprintf("s%d", c)
+			}
+		}
+		emit(mkSlot(limit, toks))
+	}
+}
+
 // A': random interleavings of N racing admissions at the boundary (scopes too large to enumerate).
 func genRandomInterleavings(r *common.Rand, count int, emit func(string)) {
 	for i := 0; i < count; i++ {
@@ -495,6 +575,7 @@ func generate(r *common.Rand, tier string, emit func(string)) {
 	genExhaustive(tier, emit)
 	genRacers(tier, emit)
 	genCtrlX(tier, emit)
+	genSlot(r, tier, emit)
 	genMultiNode(emit)
 	genStress(tier, emit)
 	if tier == "thorough" {
